@@ -290,6 +290,25 @@ fn c17(rng: &mut Rng, thorough: bool, hints: &[Vec<String>], rep: &mut Report) {
             }
         }
     }
+    for _ in 0..20000 {
+        // wide accumulator i128 with i64 samples, and narrow samples on i64: phase() must return the latest sample
+        let mut u = Unwrapper::<i128>::default();
+        let mut v = Unwrapper::<i64>::default();
+        let (mut sum, mut sumv) = (0i128, 0i128);
+        for _ in 0..8 {
+            let x: i64 = rng.i64();
+            let dx: i64 = u.update(x);
+            sum += dx as i128;
+            let x8: i8 = rng.i8();
+            let d8: i8 = v.update(x8);
+            sumv += d8 as i128;
+            if u.y() != sum || u.phase::<i64>() != x || u.y() as i64 != x || v.y() as i128 != sumv || v.phase::<i8>() != x8 {
+                rep.violation("unwrapper", "output reduced to the sample width equals the latest sample (other instantiations, phase())", &format!("Unwrapper<i128>/i64 sample {} ; Unwrapper<i64>/i8 sample {}", x, x8), "phase() = latest sample, y = running sum", &format!("phase={} y={} ; phase={} y={}", u.phase::<i64>(), u.y(), v.phase::<i8>(), v.y()));
+                break;
+            }
+        }
+    }
+    rep.count("unwrapper-other-instantiations", 20000 * 16);
     rep.count("unwrapper-boundary-states", 40000);
     // injected-state hints
     for h in hints {
@@ -1108,6 +1127,20 @@ macro_rules! c12_case {
                 }
                 if rate == 0 && y != *x {
                     rep.violation("cic-dec-identity", "rate 0 is the identity", &inp, &x.to_string(), &y.to_string());
+                    break;
+                }
+            }
+        }
+        // clear() in the middle of an output period: the filter must behave like a fresh one afterwards
+        {
+            let mut d = Cic::<$t, NN>::new(rate);
+            for x in xs.iter().take(1 + (xs.len() / 2) % r.max(1) + r / 2) { d.decimate(*x); }
+            d.clear();
+            let mut fresh = Cic::<$t, NN>::new(rate);
+            for (t, x) in xs.iter().enumerate() {
+                let (a, b) = (d.decimate(*x), fresh.decimate(*x));
+                if a != b || d.tick() != fresh.tick() {
+                    rep.violation("cic-dec-clear", "after clear() the decimator emits on the 1st, (R+1)th, ... input with the FIR output", &inp, &format!("{:?} at t={}", b, t), &format!("{:?}", a));
                     break;
                 }
             }
@@ -2446,20 +2479,15 @@ fn c08(rng: &mut Rng, thorough: bool, _hints: &[Vec<String>], rep: &mut Report) 
         let (order, oi) = [(Order::P, 2usize), (Order::I, 1), (Order::I2, 0)][rng.below(3) as usize];
         let sign = if rng.chance(1, 4) { -1.0 } else { 1.0 };
         let mut b = PidBuilder::<f64>::default();
-        b.period(period).order(order);
         let mut gains = [0f64; 5];
         let mut limits = [f64::INFINITY; 5];
         let nolim = i % 3 == 0;
-        for (j, a) in acts.iter().enumerate() {
-            if rng.chance(1, 2) {
-                gains[j] = sign * dec(rng);
-                b.gain(*a, gains[j]);
-            }
-            if !nolim && rng.chance(1, 3) {
-                limits[j] = sign * dec(rng);
-                b.limit(*a, limits[j]);
-            }
+        for j in 0..5 {
+            if rng.chance(1, 2) { gains[j] = sign * dec(rng); }
+            if !nolim && rng.chance(1, 3) { limits[j] = sign * dec(rng); }
         }
+        let _ = &acts;
+        crate::gen::pid_setup(rng, &mut b, period, order, &gains, &limits);
         let inp = format!("PidBuilder period={} order={:?} gains={:?} limits={:?}", period, order, gains, limits);
         let c: [f64; 5] = b.build();
         // expected g_i, l_i
